@@ -39,6 +39,8 @@ def key_of(i):
 
 def result_value(case, i):
     v = None if i in case.get('none_at', []) else progs.token(progs.value_of(case.get('vk'), ('r', i)))
+    if case.get('batched'):
+        return [v]
     if case.get('with_key'):
         return (key_of(i), v)
     return v
@@ -150,6 +152,9 @@ def run_case(case, trace_lines=True):
                 ds = ds.prefetch(w, b)
             else:
                 ds = ds.prefetch(w, b, catch_filter_exception=True if catch is True else progs.exc_spec(catch))
+        elif kind == 'pm' and case.get('batched'):
+            # batch_map: the same worker pool, applied to the members of (one-element) batches
+            ds = ds.map(pull_fn).batch(1).batch_map(fn, num_workers=w, buffer_size=b, backend='t')
         elif kind == 'pm':
             ds = ds.map(pull_fn).map(fn, num_workers=w, buffer_size=b, backend='t')
         if case.get('copy'):
@@ -260,6 +265,7 @@ def describe(tr):
     return (f"workload {c['kind']} n={c['n']} workers={c['workers']} buffer={c['buffer']} "
             f"with_key={c.get('with_key', False)} src_fail={c.get('src_fail', {})} fn_fail={c.get('fn_fail', {})} "
             f"catch={c.get('catch', False)} stop={c.get('stop')} pauses={c.get('pauses', [])} "
+            + ''.join(f'{k}={c[k]} ' for k in ('vk', 'batched', 'dual', 'copy', 'src', 'shuffled', 'epochs') if c.get(k)) +
             f"decisions={len(tr.sched.decisions)} preemptions={tr.sched.preemptions}")
 
 
@@ -451,6 +457,8 @@ def st_case(draw, profile):
             case['with_key'] = True
         elif keyed:
             case['src'] = 'dict'
+    if kind == 'pm' and 'with_key' not in case and draw(st.integers(0, 2)) == 0:
+        case['batched'] = True
     case['yields'] = draw(st.lists(st.integers(0, 3), min_size=n, max_size=n)) if n <= 8 else []
     if n and draw(st.integers(0, 3)) == 0:
         case['none_at'] = draw(st.lists(st.integers(0, n - 1), min_size=1, max_size=2, unique=True))
